@@ -266,10 +266,22 @@ pub fn hot() -> Tree {
     rec(0, &mut Vec::new(), &mut Vec::new(), 0)
 }
 
+/// WIDTH: an infoset with 300 actions and a chance node with 300 outcomes (indices beyond u8, long weight vectors)
+pub fn wide() -> Tree {
+    let n = 300usize;
+    let reply = |j: i64| player(2, "q", vec![("l", term(j % 7 - 3)), ("r", term((j * 3) % 5 - 2))]);
+    let lottery = Tree::C { ci: "none".into(), kids: (0..n).map(|j| CKid { w: Num::I((j % 5) as i64 + 1), t: reply(j as i64) }).collect() };
+    Tree::P {
+        pl: 1,
+        info: "w".into(),
+        kids: (0..n).map(|j| PKid { a: format!("a{j:03}"), t: if j == 0 { lottery.clone() } else { term((j as i64 * 11) % 13 - 6) } }).collect(),
+    }
+}
+
 /// games whose size crosses thresholds an implementation might special-case (64 / 1024 infosets of one player, counts
 /// that are not multiples of the thread count or of 32)
 pub fn large() -> Vec<(String, Tree)> {
-    vec![("chain130".to_string(), chain(130)), ("cards67".to_string(), cards(67)), ("cards1025".to_string(), cards(1025))]
+    vec![("chain130".to_string(), chain(130)), ("cards67".to_string(), cards(67)), ("cards1025".to_string(), cards(1025)), ("wide300".to_string(), wide())]
 }
 
 pub fn all() -> Vec<(String, Tree)> {
